@@ -119,10 +119,11 @@ macro_rules! harness {
     // harness!(name, unwind, stub(path::of::callee, abstraction), { ... }): modular obligation -- under Kani the
     // callee is replaced by the given abstraction (needs `stubbing=1` in the unit header, i.e. `-Z stubbing`);
     // natively (replay) the real callee runs.
-    ($name:ident, $unwind:expr, stub($orig:path, $abs:path), $body:block) => {
+    // Several stub(..) clauses may be given.
+    ($name:ident, $unwind:expr, $(stub($orig:path, $abs:path)),+ , $body:block) => {
         #[cfg_attr(kani, kani::proof)]
         #[cfg_attr(kani, kani::unwind($unwind))]
-        #[cfg_attr(kani, kani::stub($orig, $abs))]
+        $(#[cfg_attr(kani, kani::stub($orig, $abs))])+
         #[allow(unused_variables, unused_mut, dead_code)]
         pub fn $name() $body
     };
